@@ -185,3 +185,21 @@ Section NoPanic.
     exact (directory_handler_never_panics d (rt_matches rt) (r_uri req) Um Uu W H).
   Qed.
 End NoPanic.
+
+(* with the strip hypothesis discharged: whatever a parsed request is routed to a proxy route whose pattern is valid UTF-8
+   (config strings are Rust Strings), the target receives it as C09_upstream_sees describes *)
+Theorem server_upstream_sees_total ipp fs (c : config) p p' req ts m mt :
+  parsed_ok ipp p req -> server_response ipp fs c p req = SProxy ts m mt -> utf8 mt ->
+  ip_text_ok (a_origin (r_addr req)) ->
+  exists uri' b r', rewrite_uri mt (r_uri req) = Some uri' /\ forwarded_bytes ipp fs c p req = Some b /\
+    parse_request_flat ipp p' b = Ok (r', []) /\
+    r_method r' = r_method req /\ r_uri r' = uri' /\ r_query r' = r_query req /\ r_version r' = r_version req /\
+    r_content r' = r_content req /\
+    (forall n, hget_all n (r_headers r') = hget_all n (r_headers req ++ [(XFF, a_origin (r_addr req))])).
+Proof.
+  intros P H Um I.
+  assert (Uu : utf8 (r_uri req)) by (destruct P as [S _ _ _]; exact (so_uri_u _ _ _ _ S)).
+  destruct (server_proxy_strip_never_panics ipp fs c p req ts m mt Uu Um H) as (uri' & R).
+  destruct (server_upstream_sees ipp fs c p p' req ts m mt uri' P H R I) as (b & r' & F & Q).
+  exists uri', b, r'. split; [exact R|]. split; [exact F|exact Q].
+Qed.
